@@ -61,6 +61,60 @@ def cpp_writer_layer(ctx, n):
                     "broken": "correspondence Model.CodedCpp.wfinish vs coded_stream.h"}, no_input=True)
 
 
+def py_writer_layer(ctx, n):
+    """_binary.py CodedOutputStream against its machine model Model.CodedPy.pwfinish (flush points, chunking, exceptions)
+    and against the concatenation of what the operations denote."""
+    pyrt = cc.make_pyrt(ctx)
+    rng = ctx.rng
+    cases = []
+    for i in range(n):
+        hostile = i % 4 == 3
+        ops = cc.gen_py_wscript(rng, hostile=hostile)
+        for bs in rng.sample([10, 11, 12, 15, 16, 17, 20, 32, 64] + ([1, 3, 7] if hostile else []), 3):
+            cases.append((bs, ops))
+            ctx.count("py_writer_bufsize", str(bs))
+            ctx.count("py_writer_script", "hostile" if hostile else "guarded")
+    obs = cc.run_py_writer_cases(ctx, pyrt, cases)
+    for o in obs:
+        ctx.count("py_writer_outcome", o[2] or "ok")
+    shards = [list(zip(cases, obs))[i:i + 300] for i in range(0, len(cases), 300)]
+
+    def ev(ix_sh):
+        ix, sh_ = ix_sh
+        out = ctx.coq_eval("pwcases_%d" % ix, cc.py_writer_cases_v([c for c, _ in sh_], [o for _, o in sh_]))
+        return ix, Ctx.parse_nat_list(out, "MM"), Ctx.parse_nat_list(out, "MA")
+    with ThreadPoolExecutor(max_workers=8) as ex:
+        results = list(ex.map(ev, enumerate(shards)))
+    mm, ma = [], []
+    for ix, a, b in results:
+        mm += [ix * 300 + k for k in a]
+        ma += [ix * 300 + k for k in b]
+    for (bs, ops), o in zip(cases, obs):
+        ctx.case(("py-out", bs, tuple(cc.py_wop_text(x) for x in ops)),
+                 sample={"layer": "py-coded-out", "bufsize": bs, "ops": [cc.py_wop_text(x) for x in ops],
+                         "bytes": cc.hexs(o[0]), "chunks": o[1], "exception": o[2]})
+    ctx.coverage["traces_validated_against_impl"] = ctx.coverage.get("traces_validated_against_impl", 0) + len(cases)
+    for k in ma[:3]:
+        bs, ops = cases[k]
+        ctx.report("py-coded-out:wrong-bytes", "_binary.CodedOutputStream(buffer_size=%d) wrote bytes that differ from what its "
+                   "operations denote: %s" % (bs, [cc.py_wop_text(x) for x in ops]),
+                   {"layer": "py-coded-out", "bufsize": bs, "ops": [cc.py_wop_text(x) for x in ops], "observed": cc.hexs(obs[k][0])})
+    for k in [x for x in mm if x not in ma][:1]:
+        bs, ops = cases[k]
+        guarded = all(o[0] not in ("n",) and not (o[0] == "v" and o[1] >= 2 ** 64) for o in ops) and bs >= 10
+        if guarded and obs[k][2]:
+            ctx.report("py-coded-out:exception-on-guarded-script", "_binary.CodedOutputStream(buffer_size=%d) raised %s on a script "
+                       "of the operations generated code uses: %s" % (bs, obs[k][2], [cc.py_wop_text(x) for x in ops]),
+                       {"layer": "py-coded-out", "bufsize": bs, "ops": [cc.py_wop_text(x) for x in ops], "observed": obs[k][2]})
+        else:
+            ctx.report("py-coded-out:model-differs", "machine model Model.CodedPy.pwfinish (flush points, chunks, exception kind) "
+                       "disagrees with _binary.py although the bytes are right",
+                       {"layer": "py-coded-out", "bufsize": bs, "ops": [cc.py_wop_text(x) for x in ops], "observed_chunks": obs[k][1],
+                        "observed_exception": obs[k][2],
+                        "broken": "correspondence Model.CodedPy.pwfinish vs _binary.py CodedOutputStream (theorem C01_py_writer_refines no longer about the code)"},
+                       no_input=True)
+
+
 def typed_layer(ctx, n_pkgs, n_writes, cpp=True):
     pkgs = codec.build_packages(ctx, n_pkgs, "a", cpp=cpp, ndjson=False)
     try:
@@ -210,6 +264,7 @@ def run(ctx):
                    {"broken": failing, "log": log[-3000:]}, no_input=True)
     quick = ctx.tier == "quick"
     cpp_writer_layer(ctx, 60 if quick else 600)
+    py_writer_layer(ctx, 80 if quick else 800)
     typed_layer(ctx, 3 if quick else 12, 6 if quick else 20)
     boundary_layer(ctx, [0, 1, 2, 5, 9] if quick else list(range(-2, 13)))
 
